@@ -89,7 +89,9 @@ def approx(a, b, tol: float, key: str = "") -> bool:
             return a != a and b != b
         if math.isinf(a) or math.isinf(b):
             return a == b
-        t = max(tol, 1.0000001e-3) if key in ("height", "weight") else tol
+        t = tol
+        if key in ("height", "weight") and (abs(a - 1.0) <= 1.0000001e-3 or abs(b - 1.0) <= 1.0000001e-3):
+            t = max(tol, 1.0000001e-3)  # a height/weight within the comparison tolerance of 1 is exported as 1
         return abs(a - b) <= t
     return a == b
 
